@@ -419,6 +419,13 @@ def run(ctx):
                 geo_kernel(mode)(*args)
             except Stop:
                 completed = False
+            except Exception as e:  # noqa
+                completed = False
+                ctx.fail({"kind": "geo", "level": "kernel", "mode": mode, "invariant": "raises",
+                          "error": type(e).__name__},
+                         f"_randomly_rewire_geomodel_{mode} raised {e!r}",
+                         {"call": f"_randomly_rewire_geomodel_{mode}", "iterations": iterations, "E": E,
+                          "edges": np.asarray(edges).tolist(), "rd_random_values": [k / 2.0 ** 20 for k in state["k"]]})
         idx = state["idx"]
         if len(idx) % 2:
             idx = idx[:-1]      # second index of the pair was never drawn
@@ -575,6 +582,13 @@ def run(ctx):
                 geo_kernel(mode)(*args)
             except Stop:
                 completed = False
+            except Exception as e:  # noqa
+                completed = False
+                ctx.fail({"kind": "geo", "level": "kernel-f32", "mode": mode, "invariant": "raises",
+                          "error": type(e).__name__},
+                         f"_randomly_rewire_geomodel_{mode} raised {e!r}",
+                         {"call": f"_randomly_rewire_geomodel_{mode}", "iterations": iterations, "E": E,
+                          "edges": np.asarray(edges).tolist(), "rd_random_values": [k / 2.0 ** 20 for k in state["k"]]})
         idx = state["idx"]
         if len(idx) % 2:
             idx = idx[:-1]
